@@ -13,7 +13,7 @@ ASSUMPTIONS_COMMON = [
 
 HOOK_COMMITS = ['63b1378 verif hook: include external Kani harnesses under cfg(kani)']
 
-CLAIMED = ['C01', 'C02', 'C03', 'C05', 'C06', 'C07', 'C09', 'C12', 'C13', 'C14', 'C15', 'C16', 'C18', 'C20']
+CLAIMED = ['C01', 'C02', 'C03', 'C04', 'C05', 'C06', 'C07', 'C09', 'C12', 'C13', 'C14', 'C15', 'C16', 'C18', 'C20']
 
 INFO = {
  'C20': {
@@ -26,6 +26,8 @@ INFO = {
 INFO.update({
  'C03': {'claim': 'Counter encode/decode of the eventfd ping, for all 2^64 counter values, on the verbatim body of the closure PingSource::process_events passes to its Generic (S1 slice): the callback is callable only if the drained counter contains a ping (no callback without a ping), all pings accumulated in one counter value give one callback, the close marker gives Remove after the outstanding ping was delivered, otherwise Continue. PingSource registration delegates to the proven Generic.',
          'not_covered': ['thread schedules, kernel eventfd atomicity and level-triggered readiness', 'each ping() is followed by a callback (liveness)', 'send_ping / Ping::ping / FlagOnDrop (rustix write)'], 'trusted': ['drain_ping returns the kernel counter (assumed, signature-only)']},
+ 'C04': {'claim': 'Forwarding logic of the channel source on the verbatim text (S1 slices of Channel::process_events): the callback is callable only with a message try_recv has just handed out and with Closed only after the queue reported disconnection; Closed is followed by Remove; every wake-up makes at least one receive attempt (also for capacity 0); when the batch limit is hit with work remaining the channel re-arms its own wake-up (must-call witness on the eventfd write); Sender/SyncSender wake the loop after a successful enqueue.',
+         'not_covered': ['std::sync::mpsc semantics (exactly-once, FIFO per sender, disconnection)', 'thread schedules', 'field drop order of Sender (queue handle before the wake-on-drop guard)', 'blocking SyncSender::send liveness'], 'trusted': ['mpsc try_recv/send witnesses (assumed)', 'rustix write stand-in']},
  'C13': {'claim': 'Slot semantics of idle callbacks: cancel() empties the slot; dispatch() never calls anything on an empty slot and leaves it empty.',
          'not_covered': ['insert_idle FnOnce wrapper (closure mutating captured state)', 'dispatch_idles take-then-run, ordering, idle inserted by idle'], 'trusted': []},
  'C18': {'claim': 'Whole TransientSource state machine on the verbatim text (rewrites R1-R3, R6, R8): for every state x {process_events with any child result, remove, replace, map, register, reregister, unregister}, any child obeying the registration protocol and any parent whose register/unregister alternate, the state invariant (child registered exactly when it is the current kept child of a registered parent) is preserved, the child protocol preconditions hold at all 14 call sites, a child is dropped only when unregistered, events are forwarded only from the kept child, only Continue/Reregister are returned. Three obligations fail on the real code (known findings F6a/b/d).',
